@@ -15,8 +15,10 @@
                                          hypothesis is the one of C01 (zero-work headers: known finding of C01)
      "sender disconnected (and banned)"  C07_rejected_peer_dropped_default / _exp: exactly [Ban p; Disconnect p] / [Disconnect p],
                                          store = the store before the forbidden header (rest of the batch not ingested), no request
-     "checkpoint mismatch"               C07_checkpoint_mismatch_default / _exp: exactly [Disconnect p], no request
-                                         (the default engine checks AFTER Chains.Add: the contradicting header is stored)
+     "checkpoint mismatch"               C07_checkpoint_contradiction_any_checkpoint_default / _exp (ANY checkpoint of the list, any batch,
+                                         stale or longest; _reachable_default: in every reachable state), C07_checkpoint_mismatch_default /
+                                         _exp (the cursor's checkpoint): exactly [Disconnect p], no request
+                                         (both engines compare AFTER Chains.Add: the contradicting header is stored)
      "matching header advances"          C07_checkpoint_match_advances_default(_least) / _exp, C07_no_checkpoint_left_zero_stop
      "both cursors = least checkpoint above h"   C07_cursor_spec (sorted lists of 0..n checkpoints)
      "still converges afterwards"        C07_contained_then_converges_partial (composition with C06 catchup_linear) *)
@@ -63,7 +65,7 @@ Theorem C07_rejected_peer_dropped_every_time : forall cfg s0 evs p c o pre h pos
   no_forb (c_forb cfg) s0 ->
   let st := d_run cfg (d_init cfg s0) evs in
   aget p (d_states st) = Some c -> d_hfm st = true -> aget p (d_objs st) = Some o -> po_conn o = true ->
-  hloop (c_forb cfg) (d_next st) (d_store st) false None pre = HDone s1 rc1 fin1 ->
+  hloop (c_forb cfg) (sm_cps cfg) (d_next st) (d_store st) false None pre = HDone s1 rc1 fin1 ->
   memN (s_id h) (c_forb cfg) = true ->
   exists st', on_headers cfg st p (pre ++ h :: post) = (st', [Ban p; Disconnect p]) /\ d_store st' = s1.
 Proof. exact rejected_peer_dropped_every_time. Qed.
@@ -86,7 +88,7 @@ Proof. exact orphans_stay_orphans. Qed.
 Theorem C07_rejected_peer_dropped_default : forall cfg st p c o pre h post s1 rc1 fin1,
   no_forb (c_forb cfg) (d_store st) ->
   aget p (d_states st) = Some c -> d_hfm st = true -> aget p (d_objs st) = Some o -> po_conn o = true ->
-  hloop (c_forb cfg) (d_next st) (d_store st) false None pre = HDone s1 rc1 fin1 ->
+  hloop (c_forb cfg) (sm_cps cfg) (d_next st) (d_store st) false None pre = HDone s1 rc1 fin1 ->
   memN (s_id h) (c_forb cfg) = true ->
   exists st', on_headers cfg st p (pre ++ h :: post) = (st', [Ban p; Disconnect p]) /\
     d_store st' = s1 /\ d_next st' = d_next st /\ d_hfm st' = d_hfm st /\ d_sync st' = d_sync st /\ d_states st' = d_states st.
@@ -103,7 +105,7 @@ Proof. exact rejected_peer_dropped_exp. Qed.
 (* ---- a header contradicting the expected checkpoint ---- *)
 Theorem C07_checkpoint_mismatch_default : forall cfg st p c o pre h post s1 rc1 fin1 H cid s2 x,
   aget p (d_states st) = Some c -> d_hfm st = true -> aget p (d_objs st) = Some o -> po_conn o = true ->
-  hloop (c_forb cfg) (d_next st) (d_store st) false None pre = HDone s1 rc1 fin1 ->
+  hloop (c_forb cfg) (sm_cps cfg) (d_next st) (d_store st) false None pre = HDone s1 rc1 fin1 ->
   d_next st = Some (H, cid) ->
   add (c_forb cfg) s1 h = (s2, Stored x) -> height (create_header s1 h) = H -> s_id h <> cid ->
   exists st', on_headers cfg st p (pre ++ h :: post) = (st', [Disconnect p]) /\
@@ -118,25 +120,78 @@ Theorem C07_checkpoint_mismatch_exp : forall cfg p st pre h post s1 i H cid n1 l
 Proof. exact checkpoint_mismatch_exp. Qed.
 
 
-(* ---- refuted for the default engine as it is (known finding C07-passed-checkpoint-fork-adopted): a branch contradicting an
-   ALREADY PASSED checkpoint that overtakes the tip is adopted, its sender kept and asked for more ---- *)
-Theorem C07_passed_checkpoint_fork_adopted_refuted :
+(* ---- ANY checkpoint of the list, not only the cursor's (models of /repo after fc399a8 and a26f54a) ----
+   History: before fc399a8 the default engine compared only the checkpoint its cursor pointed at: a branch contradicting an
+   already passed checkpoint that overtook the tip was adopted, its sender kept and asked for more
+   (C07_passed_checkpoint_fork_adopted_refuted, known finding C07-passed-checkpoint-fork-adopted, now fixed); before a26f54a the
+   experimental engine compared only longest-chain headers, so a stale contradicting header kept its sender. *)
+Theorem C07_checkpoint_contradiction_any_checkpoint_default : forall cfg st p c o pre h post s1 rc1 fin1 s2 x cp0,
+  cps_functional (sm_cps cfg) -> cursor_in cfg st ->
+  aget p (d_states st) = Some c -> d_hfm st = true -> aget p (d_objs st) = Some o -> po_conn o = true ->
+  hloop (c_forb cfg) (sm_cps cfg) (d_next st) (d_store st) false None pre = HDone s1 rc1 fin1 ->
+  add (c_forb cfg) s1 h = (s2, Stored x) -> x <> Orphan ->
+  In cp0 (sm_cps cfg) -> fst cp0 = height (create_header s1 h) -> snd cp0 <> s_id h ->
+  exists st', on_headers cfg st p (pre ++ h :: post) = (st', [Disconnect p]) /\
+    d_store st' = s2 /\ d_next st' = d_next st /\ d_hfm st' = d_hfm st /\ d_sync st' = d_sync st /\ d_states st' = d_states st.
+Proof. exact checkpoint_contradiction_any_checkpoint_default. Qed.
+
+(* cursor_in (the cursor is an entry of the manager's list) holds in EVERY reachable state: any event sequence, any peers, any
+   sync-peer choices, from SyncManager.New on any store *)
+Theorem C07_cursor_in_reachable : forall cfg s evs, cursor_in cfg (d_run cfg (d_init cfg s) evs).
+Proof. exact cursor_in_reachable. Qed.
+
+(* ... hence, in any reachable state of the default engine and any batch: *)
+Theorem C07_checkpoint_contradiction_reachable_default : forall cfg s0 evs p c o pre h post s1 rc1 fin1 s2 x cp0,
+  cps_functional (sm_cps cfg) ->
+  let st := d_run cfg (d_init cfg s0) evs in
+  aget p (d_states st) = Some c -> d_hfm st = true -> aget p (d_objs st) = Some o -> po_conn o = true ->
+  hloop (c_forb cfg) (sm_cps cfg) (d_next st) (d_store st) false None pre = HDone s1 rc1 fin1 ->
+  add (c_forb cfg) s1 h = (s2, Stored x) -> x <> Orphan ->
+  In cp0 (sm_cps cfg) -> fst cp0 = height (create_header s1 h) -> snd cp0 <> s_id h ->
+  exists st', on_headers cfg st p (pre ++ h :: post) = (st', [Disconnect p]) /\ d_store st' = s2 /\ d_next st' = d_next st.
+Proof. exact checkpoint_contradiction_reachable_default. Qed.
+
+(* experimental engine: ANY state of a connected peer (no reachability premise is needed: the comparison does not involve the
+   tracker), ANY batch, stale or longest alike *)
+Theorem C07_checkpoint_contradiction_any_checkpoint_exp : forall cfg p st pre h post s1 cur1 n1 l1 s2 x cp0,
+  e_conn st = true ->
+  eloop cfg (e_store st) (e_cur st) O 0 pre = EDoneL s1 cur1 n1 l1 ->
+  add (x_forb cfg) s1 h = (s2, Stored x) -> x <> Orphan ->
+  In cp0 (x_cps cfg) -> fst cp0 = height (create_header s1 h) -> snd cp0 <> s_id h ->
+  exists st', e_on_headers cfg p st (pre ++ h :: post) = (st', [Disconnect p]) /\ e_store st' = s2 /\ e_conn st' = false /\ e_cur st' = cur1.
+Proof. exact checkpoint_contradiction_any_checkpoint_exp. Qed.
+
+Theorem C07_sorted_lists_are_functional : forall cps, sorted cps -> cps_functional cps.
+Proof. exact sorted_functional. Qed.
+
+(* the hypotheses are satisfiable, and the old witness now ends with the sender dropped: peer 7 brings 20 <- 21 <- 22
+   (checkpoint: height 3 = 22), afterwards peer 8 delivers 2 <- 3 <- 4 <- 5 <- 6: header 4 (stale, height 3) contradicts the
+   PASSED checkpoint *)
+Definition exA : list src := [ex_sub 20 1 545259519; ex_sub 21 20 545259519; ex_sub 22 21 545259519].
+Definition exB : list src := map (fun i => ex_sub i (i - 1) 545259519) [2; 3; 4; 5; 6]%N.
+Example ex_passed_checkpoint_now_enforced :
   let cfg := {| c_cps := [(3, 22%N)]; c_disable := false; c_forb := []; c_now := 0 |} in
   let st0 := fst (on_new_peer cfg 0 (d_init cfg (init 1 (ex_pl 486604799))) 7 true 3) in
   let st1 := fst (on_headers cfg st0 7 exA) in
   let st2 := fst (on_new_peer cfg 0 st1 8 true 5) in
   let '(st3, es) := on_headers cfg st2 8 exB in
-  d_next st1 = None /\ option_map id (tipB (d_store st1)) = Some 22%N /\
-  option_map id (tipB (d_store st3)) = Some 6%N /\
-  (exists r, by_hash (d_store st3) 4%N = Some r /\ height r = 3 /\ st r = Longest) /\
-  es = [GetHeaders 8 [6; 5; 4; 3; 2; 1]%N 0%N].
-Proof. exact passed_checkpoint_fork_adopted_refuted. Qed.
+  d_next st1 = None /\ es = [Disconnect 8] /\ option_map id (tipB (d_store st3)) = Some 22%N /\ ids (d_store st3) = [4; 3; 2; 22; 21; 20; 1]%N /\
+  cps_functional (sm_cps cfg).
+Proof. vm_compute. repeat split; try reflexivity. intros c1 c2 [<-|[]] [<-|[]] _. reflexivity. Qed.
+
+Example ex_exp_stale_contradiction_dropped :
+  let cfg := {| x_cps := [(1, 20%N)]; x_forb := [] |} in
+  let s := run_from [] (init 1 (ex_pl 486604799)) exA in                         (* another peer has passed the checkpoint *)
+  let st := fst (e_start cfg 8 5 s) in
+  snd (e_on_headers cfg 8 st exB) = [Disconnect 8] /\ ids (e_store (fst (e_on_headers cfg 8 st exB))) = [2; 22; 21; 20; 1]%N /\
+  map st (e_store (fst (e_on_headers cfg 8 st exB))) = [Stale; Longest; Longest; Longest; Longest].
+Proof. vm_compute. repeat split; reflexivity. Qed.
 
 (* ---- a matching header advances the cursor ---- *)
 Theorem C07_checkpoint_match_advances_default : forall cfg st p c hs s' fh H cid,
   aget p (d_states st) = Some c -> d_hfm st = true -> hs <> [] ->
   d_next st = Some (H, cid) ->
-  hloop (c_forb cfg) (d_next st) (d_store st) false None hs = HDone s' true (Some fh) ->
+  hloop (c_forb cfg) (sm_cps cfg) (d_next st) (d_store st) false None hs = HDone s' true (Some fh) ->
   on_headers cfg st p hs =
   match find_next_d (c_cps cfg) H with
   | Some (H', c') => send_gh (with_next (with_store st s') (Some (H', c'))) p [cid] c'
@@ -148,13 +203,13 @@ Theorem C07_checkpoint_match_advances_default_least : forall cfg st p c hs s' fh
   sorted (c_cps cfg) ->
   aget p (d_states st) = Some c -> d_hfm st = true -> hs <> [] ->
   d_next st = Some (H, cid) ->
-  hloop (c_forb cfg) (d_next st) (d_store st) false None hs = HDone s' true (Some fh) ->
+  hloop (c_forb cfg) (sm_cps cfg) (d_next st) (d_store st) false None hs = HDone s' true (Some fh) ->
   d_next (fst (on_headers cfg st p hs)) = least_above (c_cps cfg) H.
 Proof. exact checkpoint_match_advances_default_least. Qed.
 
 Theorem C07_no_checkpoint_left_zero_stop : forall cfg st p c hs s' rc fh,
   aget p (d_states st) = Some c -> d_hfm st = true -> hs <> [] -> d_next st = None ->
-  hloop (c_forb cfg) None (d_store st) false None hs = HDone s' rc (Some fh) ->
+  hloop (c_forb cfg) (sm_cps cfg) None (d_store st) false None hs = HDone s' rc (Some fh) ->
   on_headers cfg st p hs = send_gh (with_store st s') p (locator s') 0%N.
 Proof. exact no_checkpoint_left_zero_stop. Qed.
 
@@ -185,7 +240,7 @@ Proof. exact cursor_spec. Qed.
 Theorem C07_contained_then_converges_partial : forall cfg st p c o pre h post s1 rc1 fin1 gid C q cap res k hints fuel,
   no_forb (c_forb cfg) (d_store st) ->
   aget p (d_states st) = Some c -> d_hfm st = true -> aget p (d_objs st) = Some o -> po_conn o = true ->
-  hloop (c_forb cfg) (d_next st) (d_store st) false None pre = HDone s1 rc1 fin1 ->
+  hloop (c_forb cfg) (sm_cps cfg) (d_next st) (d_store st) false None pre = HDone s1 rc1 fin1 ->
   memN (s_id h) (c_forb cfg) = true ->
   good_chain (c_forb cfg) gid C -> cps_ok gid C (eff_cps cfg) -> sorted (eff_cps cfg) ->
   (1 <= cap)%nat -> (k <= length C)%nat -> Good gid C k s1 -> (length C - k + 1 <= fuel)%nat ->
@@ -251,7 +306,11 @@ Print Assumptions C07_rejected_peer_dropped_default.
 Print Assumptions C07_rejected_peer_dropped_exp.
 Print Assumptions C07_checkpoint_mismatch_default.
 Print Assumptions C07_checkpoint_mismatch_exp.
-Print Assumptions C07_passed_checkpoint_fork_adopted_refuted.
+Print Assumptions C07_checkpoint_contradiction_any_checkpoint_default.
+Print Assumptions C07_cursor_in_reachable.
+Print Assumptions C07_checkpoint_contradiction_reachable_default.
+Print Assumptions C07_checkpoint_contradiction_any_checkpoint_exp.
+Print Assumptions C07_sorted_lists_are_functional.
 Print Assumptions C07_checkpoint_match_advances_default.
 Print Assumptions C07_checkpoint_match_advances_default_least.
 Print Assumptions C07_no_checkpoint_left_zero_stop.
